@@ -295,10 +295,17 @@ def r3_diagnostics(ctx, prog):
             return absint.UNIT
         this = CF("Plurals", forms=L(T(C("Zero"), A("vz")), T(C("One"), A("vo")), T(C("Few"), A("vf"))), other=A("vother"), rule_type=C("Cardinal"), count_key=A("ck"))
         bi = {"get_plural_rules": lambda rv, a: C("Ok", A("rules")), "categories": lambda rv, a: L(C("One"), C("Other")), "emit_warning": emit}
-        v = AEval(funcs=funcs, builtins=bi).run_fn(fn, [this, A("locale"), A("key_path"), A("warnings")])
+        ev = AEval(funcs=funcs, builtins=bi)
+        v = ev.run_fn(fn, [this, A("locale"), A("key_path"), A("warnings")])
         got = [(w[1], dict(w[3]).get("form"), dict(w[3]).get("rule_type")) for w in emitted if w[0] == "ctor"]
         want = [("UnusedForm", C("Zero"), C("Cardinal")), ("UnusedForm", C("Few"), C("Cardinal"))]
-        if v == C("Ok", absint.UNIT) and got == want:
+        after = (getattr(ev, "last_env", None) or {}).get("self", this)
+        if v == C("Ok", absint.UNIT) and got == want and after != this:
+            # the check reports; it must not edit: the same value is rendered for every locale that falls back to this one,
+            # under *that* locale's rules, which may well select a form this locale never does
+            r.viol("R3:check_forms#forms-kept", "check_forms changes the plural it checks: %s becomes %s (a form this locale never selects is still selected by "
+                   "a locale that falls back to this value)" % (absint.fmt(this), absint.fmt(after)), file=fn.file, line=fn.line)
+        elif v == C("Ok", absint.UNIT) and got == want:
             for k in ("rules", "written", "used", "unused"):
                 r.inst("check_forms#" + k, "forms written but never selected by the locale's rules (zero, few of {zero, one, few} vs {one, other}) are reported as UnusedForm, with the plural's own rule type")
         else:
